@@ -324,6 +324,13 @@ def check_pdf(chk, rep, repo):
     mn, mx = ("attr", G, "min_density"), ("attr", G, "max_density")
     s_mn = [e for e in w.events if e.kind == "store" and e.target == mn]
     s_mx = [e for e in w.events if e.kind == "store" and e.target == mx]
+    for e in s_mn + s_mx:
+        for t in subterms(e.value):
+            if t[0] == "call" and (t[1] in (("builtin", "min"), ("builtin", "max")) or (t[1][0] == "mod" and t[1][1] in (
+                    "numpy.min", "numpy.max", "numpy.amin", "numpy.amax", "numpy.nanmin", "numpy.nanmax"))) and len(t[2]) == 1:
+                from ..core import AnalysisError
+                raise AnalysisError(f"KNNSubgraph.calculate_pdf: '{show(e.target)} = {show(e.value)[:60]}' takes the extreme of a whole "
+                                    "sequence; the density rules follow the scalar scan over the nodes - this form is outside the analysable fragment")
     init_mn = [e for e in s_mn if not e.loops and e.value == K("FLOAT_MAX")]
     init_mx = [e for e in s_mx if not e.loops and is_neg_float_max(e.value)]
     detached = None
